@@ -256,10 +256,10 @@ impl Monitor for C06 {
         "C06"
     }
     fn gens(&self, tier: Tier) -> Vec<(&'static str, u64)> {
-        vec![("pairs", tier.pick(420_000, 8_400_000)), ("grid", tier.pick(70_000, 700_000))]
+        vec![("pairs", tier.pick(420_000, 8_400_000)), ("grid", tier.pick(70_000, 700_000)), ("huge_pairs", tier.pick(84, 420))]
     }
     fn rule(&self) -> &'static str {
-        "pairs: case = (objective, family, length 1..8 or (every third block) from {9,15..17,31,33,63..65,127..129,255,257,1000,1023,1025,4097}, flat or 3-D factorisation); families for AE/MAE/MSE/RMSE: random (scales 1e-3..1e5), some-equal, ulp-differences, tiny-differences (1e-44..1e-10), large-magnitudes (1e8..1e15), boundary-grid; for CE/BCE/KL: random-interior, one-hot-target, boundary-grid {0,1,1e-6,1-1e-6,denormals,..}, equal-pairs, exact-zeros-and-ones, distributions. Every case: loss vs documented formula (running f32 error bound), loss finite, gradient vs documented formula (1e-5 + n eps relative), gradient shape == prediction shape, a clamp interval applied (symmetric, narrow, degenerate, half-line [0,MAX], random, one-sided with an infinite bound, (-inf,inf)): loss unchanged and gradient == unclamped gradient limited to the interval bit-for-bit; interior cases of AE/MSE/BCE/KL additionally: gradient == dual-number derivative of the documented loss and ~ central difference of the library's own loss(). Every fourth case applies a clamp to raw scores (predictions up to 5, targets up to 3, outside the probabilistic domain): clamped gradient == unclamped gradient limited to the interval. Every fourth case evaluates ONE objective value on three pairs of different sizes and layouts in a row (loss and gradient of each against the documented formulas). grid: full product of boundary values for vectors of length <= 3. Distinct = distinct (objective, family, shape, data hash)."
+        "pairs: case = (objective, family, length 1..8 or (every third block) from {9,15..17,31,33,63..65,127..129,255,257,1000,1023,1025,4097}, flat or 3-D factorisation); families for AE/MAE/MSE/RMSE: random (scales 1e-3..1e5), some-equal, ulp-differences, tiny-differences (1e-44..1e-10), large-magnitudes (1e8..1e15), boundary-grid; for CE/BCE/KL: random-interior, one-hot-target, boundary-grid {0,1,1e-6,1-1e-6,denormals,..}, equal-pairs, exact-zeros-and-ones, distributions. Every case: loss vs documented formula (running f32 error bound), loss finite, gradient vs documented formula (1e-5 + n eps relative), gradient shape == prediction shape, a clamp interval applied (symmetric, narrow, degenerate, half-line [0,MAX], random, one-sided with an infinite bound, (-inf,inf)): loss unchanged and gradient == unclamped gradient limited to the interval bit-for-bit; interior cases of AE/MSE/BCE/KL additionally: gradient == dual-number derivative of the documented loss and ~ central difference of the library's own loss(). Every fourth case applies a clamp to raw scores (predictions up to 5, targets up to 3, outside the probabilistic domain): clamped gradient == unclamped gradient limited to the interval. Every fourth case evaluates ONE objective value on three pairs of different sizes and layouts in a row (loss and gradient of each against the documented formulas). grid: full product of boundary values for vectors of length <= 3. huge_pairs: every objective on random pairs of 65535, 65536, 65537, 70000, 76800 (3x160x160) and 131075 elements, flat and 3-D, same checks (more elements than 16 bits count). Distinct = distinct (objective, family, shape, data hash)."
     }
     fn assumptions(&self) -> Vec<&'static str> {
         vec![
@@ -273,6 +273,18 @@ impl Monitor for C06 {
         let obj = OBJS[(idx % 7) as usize];
         let mut out = Out::new(String::new());
         match gen {
+            "huge_pairs" => {
+                // pairs with more elements than 16 bits can count (images of 3x160x160, long
+                // signals): the divisor n of MAE / MSE / RMSE and every running index
+                let sizes = [65_535usize, 65_536, 65_537, 70_000, 76_800, 131_075];
+                let n = sizes[((idx / 7) % 6) as usize];
+                let (p, t, name, interior) = make_pair(&mut rng, obj, 0, n);
+                let sh = if (idx / 42) % 2 == 1 { if n == 76_800 { Sh::Sp(3, 160, 160) } else { factor(&mut rng, n) } } else { Sh::Flat(n) };
+                out.key = format!("{} huge {} {}", obj.name(), sh.name(), idx / 84);
+                out.cover("huge_pair_lengths", n.to_string());
+                out.count("pairs_of_65535_or_more_elements", 1);
+                check_pair(&mut rng, obj, sh, &p, &t, name, interior, &mut out);
+            }
             "pairs" => {
                 let fam = ((idx / 7) % 6) as usize;
                 // every third block of cases: long vectors around the sizes where chunked or blocked
